@@ -34,6 +34,11 @@ def load_rule(prop):
         return importlib.import_module(f"vstatic.rules.{prop.lower()}")
     except ModuleNotFoundError:
         return None
+    except Exception as e:      # a broken checker is exit 2, never a traceback that looks like exit 1
+        import traceback
+        traceback.print_exc()
+        print(f"ANALYSIS-ERROR property={prop} checker module failed to load: {type(e).__name__}: {e}")
+        return None
 
 
 def main(argv=None):
@@ -80,4 +85,13 @@ def main(argv=None):
 
 
 if __name__ == '__main__':
-    sys.exit(main())
+    try:
+        rc = main()
+    except SystemExit:
+        raise
+    except BaseException as e:      # never let a traceback exit with status 1
+        import traceback
+        traceback.print_exc()
+        print(f"ANALYSIS-ERROR internal: {type(e).__name__}: {e}")
+        rc = 2
+    sys.exit(rc)
